@@ -795,9 +795,51 @@ def gen_rop(rng, wide=True, shapes=False):
     return (t, gen_pairs(rng), rng.choice(["dict", "dict", "list", "gen"]))      # assign / update
 
 
+OPEN_TAILS = ['x="', 'x = "', 'x="abc', 'x="a b; c=3', '$Version= "', '$Version = ";', 'x="a\\', 'x=\\', 'x=1\\', 'x="q r"\\',
+              'x="\\"', '"', '\\']
+OPEN_HEADERS = ['x="', 'a=1; x="', 'x="; b=2', '$Version= "', 'x="abc', 'x=\\']
+
+
+def gen_open_header(rng):
+    """cls 'Q': a pre-existing header that ENDS INSIDE a quoted string or an escape (an odd number of unescaped double
+    quotes, or a dangling backslash): well-formed pairs, then one pair whose quote is never closed / a trailing
+    backslash, possibly followed by more pairs (which the open quote then swallows or not, as webob reads it)."""
+    if rng.random() < 0.25:
+        return rng.choice(OPEN_HEADERS)
+    head = gen_header(rng, "W")[0] if rng.random() < 0.6 else ""
+    text = (head + rng.choice(SEPS_W) if head else "") + rng.choice(OPEN_TAILS)
+    if rng.random() < 0.35 and not text.endswith("\\"):
+        text += rng.choice(["; b=2", ";b=2; a=1", "; secure", " ", ";", "; ab=x=y"])
+    if open_tail(text) is None:                # (a second stray quote of the head closed it again)
+        text += '; x="'
+    return text
+
+
+def open_tail(header):
+    """Decided on the header TEXT alone: 'quote' if it holds an odd number of unescaped double quotes, 'escape' if it
+    ends with an unescaped backslash, else None."""
+    h, q, i = header or "", 0, 0
+    while i < len(h):
+        if h[i] == "\\":
+            if i + 1 == len(h):
+                return "quote" if q % 2 else "escape"
+            i += 2
+            continue
+        q += h[i] == '"'
+        i += 1
+    return "quote" if q % 2 else None
+
+
+OPEN_KEY = "request-jar:unbalanced-quote-in-existing-header"
+
+
 def gen_request_case(rng, maxlen, cls=None, shapes=False):
     cls = cls or rng.choice(["W", "W", "T", "T", "G"])
-    if cls == "G":
+    if cls == "G" and rng.random() < 0.35:     # 7% of all histories
+        cls = "Q"
+    if cls == "Q":
+        header, intent = gen_open_header(rng), None
+    elif cls == "G":
         header, intent = gen_garbage(rng), None
     else:
         header, intent = gen_header(rng, cls)
@@ -1210,7 +1252,17 @@ def oracle_request(case):
                     b = [kv for kv in before_pairs if kv[0] != bname]
                     if a != b:
                         return (key, where + "pairs of other names changed: %r -> %r" % (b, a))
-                # (outside the class only coherence is asked: the reference is re-read at the next step)
+                elif not sem and ref is not None and not strictq and isinstance(name, str) and valid_name_ref(name) \
+                        and open_tail(before) and key == "request-jar:dict-model" and not isinstance(jar, Err):
+                    # outside the class BECAUSE the header ends inside a quoted string / an escape: the reference dict is
+                    # what the implementation itself read before this step, with this one operation applied
+                    if jar != [[k, v] for k, v in ref.items()]:
+                        lost = [k for k in ref if k not in dict(jar)]
+                        return (OPEN_KEY, where + "the existing header ends inside %s: the jar read %r before this step and reads %r "
+                                "after it, the dict model says %r%s" % (
+                                    "a double-quoted string that is never closed" if open_tail(before) == "quote" else "a backslash escape",
+                                    before_jar, jar, list(ref.items()), ("; lost: %r" % lost) if lost else ""))
+                # (outside the class otherwise only coherence is asked: the reference is re-read at the next step)
             f1, f2 = fresh_views(req)
             if view is not None and read_jar(req) != jar:
                 return ("request-jar:fresh-request-disagrees", where + "a new req.cookies view reads %r, the held one %r" % (read_jar(req), jar))
@@ -1766,6 +1818,8 @@ def run(ctx):
     for _ in range(n):
         cls = rng.choice(["W", "T", "T", "G", "G"])
         hdrs.append(gen_garbage(rng) if cls == "G" else gen_header(rng, cls)[0])
+    # headers that end inside a quoted string / an escape (class 'Q')
+    hdrs += OPEN_HEADERS + [gen_open_header(rng) for _ in range(n // 12)]
     with FrozenClock():
         for _ in range(n // 4):
             c = gen_response_case(rng, 3)
@@ -1790,8 +1844,12 @@ def run(ctx):
                 ck._valid_cookie_name, cstr)
 
     cases = []
-    for i in range(n):
-        c = gen_request_case(rng, maxlen)
+    # the witnesses of C15_open_quote_refuted / C15_dangling_escape_refuted and their neighbours, then random histories
+    fixed = [{"kind": "request", "class": "Q", "header": h, "intent": None, "ops": list(ops), "held": False, "rcfg": 0, "strictq": 0}
+             for h in OPEN_HEADERS + ['$Version = ";']
+             for ops in ([("set", "A", "a b")], [("set", "A", "1"), ("set", "ab", "\\")], [("set", "x", "2"), ("del", "x")])]
+    for i in range(n + len(fixed)):
+        c = fixed[i] if i < len(fixed) else gen_request_case(rng, maxlen)
         out = run_request_impl(c["header"], c["ops"], c["held"], c["rcfg"])
         lit = cpair("None" if c["header"] is None else "(Some %s)" % cstr(c["header"]),
                     clist(c_rop(o) for o in c["ops"] if o[0] != "read"))
@@ -1865,7 +1923,10 @@ def run(ctx):
         "request.cookies must come back unchanged; merge_cookies onto a plain WSGI application is exercised with a fresh "
         "header list per call and with ONE reused list object, the wrapped application called several times and the bare "
         "one in between and afterwards (answers = app headers + merged cookies once, the application's list unchanged); "
-        "450 cases are re-run in reversed and shuffled order within the process and must answer identically" % maxlen)
+        "450 cases are re-run in reversed and shuffled order within the process and must answer identically.  Class Q "
+        "(7%% of the random request histories in correspondence and oracle, plus every history of length <= depth over 10 "
+        "operations x 9 fixed headers such as x=\", a=1; x=\", x=\"; b=2, $Version= \", x=\"abc, x=\\): pre-existing "
+        "headers with an odd number of unescaped double quotes or a dangling backslash" % maxlen)
     ctx.extra["exhaustive"] = False
     ctx.extra["exhaustive_part"] = ("request: all op sequences of length <= %d over %d ops x %d headers; response: all op sequences "
                                "of length <= %d over %d ops" % (ctx.scale(2, 3), len(small_rops()), len(SMALL_HEADERS),
@@ -1875,8 +1936,13 @@ def run(ctx):
         "request-side statement is checked (and proved) on tokenisable headers: name=value pairs whose value is an "
         "unquoted legal run or a quoted string, separated by text that starts with ';' (any '='-free junk, flags, doubled "
         "separators, stray quotes may follow); the oracle additionally runs backslash forms, date-shaped values and "
-        "separators made of ',' (white space alone is not a separator: an empty value would swallow what follows).  On arbitrary garbage (unbalanced quote in value position, pairs glued without "
+        "separators made of ',' (white space alone is not a separator: an empty value would swallow what follows).  On arbitrary garbage (pairs glued without "
         "separator) only robustness, KeyError-iff-absent and agreement with a fresh Request are checked",
+        "a pre-existing header that ends inside a quoted string or an escape (odd number of unescaped double quotes / dangling "
+        "backslash; class 'Q', decided on the header text by open_tail) is NOT excluded: the reference dict there is what "
+        "the implementation read before the step with the one operation applied, and a step that loses the assigned cookie "
+        "or changes an untouched one is reported under its own key request-jar:unbalanced-quote-in-existing-header "
+        "(Coq: C15_open_quote_refuted, C15_dangling_escape_refuted show the faithful model does exactly this)",
         "values containing '[' or ']' are used on the request side only when the regenerated tables say that every octet "
         "emitted bare is legal on input (premise plain_ok of the theorems); on a tree without that they are emitted unquoted "
         "and read back truncated, which is C07's finding (alphabet mismatch), not a jar-edit defect",
@@ -1969,6 +2035,18 @@ def run_oracle(ctx):
                 nt += any(o[0] != "del" or valid_name_ref(o[1]) for o in ops)
                 report(ctx, case, "exhaustive-request")
     ctx.oracle_count("exhaustive-request", cnt, nt)
+    # headers that end inside a quoted string / an escape (class 'Q'): every short history of assignments and deletions
+    cnt = 0
+    UQ = [("set", "A", "a b"), ("set", "A", "1"), ("set", "ab", "\\"), ("set", "x", "2"), ("set", "b", "x; b=2"), ("del", "x"),
+          ("del", "b"), ("read", "x"), ("pop", "a", True), ("setdefault", "A", "q\"r")]
+    for h in OPEN_HEADERS + ['$Version = ";', 'x="a\\', 'a=1; x="abc; b=2']:
+        for d in range(1, depth + 1):
+            for ops in itertools.product(UQ, repeat=d):
+                case = {"kind": "request", "class": "Q", "header": h, "intent": None, "ops": list(ops),
+                        "held": cnt % 2 == 1, "rcfg": cnt % N_QCFG}
+                cnt += 1
+                report(ctx, case, "exhaustive-open-quote-request")
+    ctx.oracle_count("exhaustive-open-quote-request", cnt, cnt)
     cnt = 0
     X = small_xops()
     for d in range(1, depth + 1):
@@ -1983,7 +2061,7 @@ def run_oracle(ctx):
     nt = 0
     for _ in range(m):
         case = gen_request_case(r2, 12, None, True)
-        nt += case["class"] != "G"
+        nt += case["class"] not in ("G", "Q")
         report(ctx, case, "random-request")
     ctx.oracle_count("random-request", m, nt)
     r3 = ctx.sub_rng("oracle-response")
